@@ -33,6 +33,11 @@ def make_coders(cache_max):
          'dec_json': sut.Decoder(compiled_template_cache_max=cache_max), 'enc_json': sut.Encoder(compiled_template_cache_max=cache_max)}
     d['dec_json'].compiled_template_manager = JsonRoundTripManager(cache_max)
     d['enc_json'].compiled_template_manager = JsonRoundTripManager(cache_max)
+    # a decoder and an encoder that share one manager: the compiled template one of them made (or loaded) is then run by
+    # the other kind of coder -- a compiled template does not belong to the coder that compiled it
+    d['dec_shared'] = sut.Decoder(compiled_template_cache_max=cache_max)
+    d['enc_shared'] = sut.Encoder(compiled_template_cache_max=cache_max)
+    d['enc_shared'].compiled_template_manager = d['dec_shared'].compiled_template_manager
     return d
 
 
@@ -237,6 +242,19 @@ def check_history(h):
                 out.fail('encoding with template compilation%s differs from encoding without (%s)' % (
                     ' after a JSON save/load' if name == 'enc_json' else '', d.get('what', 'outcome')),
                     step=step, message=i, cache_max=h.cache_max, difference=d, descriptors=c.ids)
+                return out
+        # one compiled template object run by both kinds of coder, in either order
+        for name in (('dec_shared', 'enc_shared') if step % 2 == 0 else ('enc_shared', 'dec_shared')):
+            if name == 'dec_shared':
+                d = diff_outcomes(base_dec[i], outcome_of_decode(coders[name], c.bytes))
+            else:
+                d = diff_outcomes(base_enc[i], outcome_of_encode(coders[name], flats[i]))
+            if d is not None:
+                verb = 'decoding' if name == 'dec_shared' else 'encoding'
+                out.fail('a compiled template shared by a decoder and an encoder: %s differs from %s without compilation (%s)' % (
+                    verb, verb, d.get('what', 'outcome')),
+                    step=step, message=i, cache_max=h.cache_max, difference=d, descriptors=c.ids,
+                    order='decoder first' if step % 2 == 0 else 'encoder first')
                 return out
     return out
 
